@@ -96,7 +96,13 @@ func ErrClass(err error) string {
 
 // ReadAll runs a frame.Reader over the chunks until the transport is exhausted and reports the
 // sequence of results in the model's format. perCall, when non-nil, receives bytes consumed per call.
+// ReadAll reads everything and renders at once; ReadAllLater reads everything now and returns the
+// rendering for later (the frames are kept as the reader returned them).
 func ReadAll(cs []Chunk, drw *dialect.ReadWriter, key *frame.V2Key, perCall *[]int) string {
+	return ReadAllLater(cs, drw, key, perCall)()
+}
+
+func ReadAllLater(cs []Chunk, drw *dialect.ReadWriter, key *frame.V2Key, perCall *[]int) func() string {
 	total := 0
 	for _, c := range cs {
 		if c.Err != 0 {
@@ -109,7 +115,7 @@ func ReadAll(cs []Chunk, drw *dialect.ReadWriter, key *frame.V2Key, perCall *[]i
 	br := bufio.NewReaderSize(sr, 512)
 	rd := &frame.Reader{BufByteReader: br, DialectRW: drw, InKey: key}
 	if err := rd.Initialize(); err != nil {
-		return "INITERR"
+		return func() string { return "INITERR" }
 	}
 	// frames are kept as returned and rendered only when reading has ended: a returned frame
 	// must not change because more input was read after it
@@ -140,13 +146,13 @@ func ReadAll(cs []Chunk, drw *dialect.ReadWriter, key *frame.V2Key, perCall *[]i
 		}
 		if res == "panic" {
 			out = append(out, "PANIC")
-			return render()
+			return render
 		}
 		if err != nil {
 			c := ErrClass(err)
 			out = append(out, c)
 			if c == "T0" && sr.Exhausted() && br.Buffered() == 0 {
-				return render()
+				return render
 			}
 			continue
 		}
@@ -154,5 +160,5 @@ func ReadAll(cs []Chunk, drw *dialect.ReadWriter, key *frame.V2Key, perCall *[]i
 		kept = append(kept, fr)
 	}
 	out = append(out, "NOEND")
-	return render()
+	return render
 }
